@@ -1,5 +1,6 @@
 import ZkElGamal.Driver.Wire
 import ZkElGamal.Driver.Sigma
+import ZkElGamal.Driver.Enc
 /-!
 `zkmodel` — the executable model. One op per line on stdin (`<id> <op> <args…>`),
 one result per line on stdout (`<id> <outcome>`); the same lines are run by the
@@ -15,6 +16,13 @@ def execOp (op : String) (args : List String) : String :=
   | "new" => opNew args
   | "prove" => opProve args
   | "mprove" => opMprove args
+  | "decode" => opDecode args
+  | "extract" => opExtract args
+  | "fromstr" => opFromStr args
+  | "tostr" => opToStr args
+  | "json" => opJson args
+  | "tojson" => opToJson args
+  | "elg" => opElg args
   | _ => "bad-op"
 
 partial def loop (h : IO.FS.Stream) (out : IO.FS.Stream) : IO Unit := do
